@@ -946,10 +946,11 @@ def delete_pointless_statements(source: str) -> str:
     ast_tree = core.parse(source)
     safe_callables = parsing.safe_callable_names(ast_tree)
     # What is tried may be there for the exception it raises, like data[i] under except IndexError
+    # or in a with block whose context manager expects it
     tried = {
         statement
-        for try_node in core.walk(ast_tree, ast.Try)
-        if try_node.handlers
+        for try_node in core.walk(ast_tree, (ast.Try, ast.With, ast.AsyncWith))
+        if not isinstance(try_node, ast.Try) or try_node.handlers
         for child in try_node.body
         for statement in core.walk(child, ast.stmt)
     }
